@@ -38,7 +38,7 @@ let popcount (bits : int list) = let c = ref 0 in for i = 0 to 511 do if bit_at 
 
 (* conv: the model's converter applied to the wire object (Ok u for a hand-built GenericUpdate) *)
 type pstep = { force : bool; mode : string; conv : update res; now : n; fork : byte list; nbits : int }
-let fork_of = function 'a' -> WAltair | 'c' -> WCapella | 'd' -> WDeneb | _ -> WOther
+let fork_of = function 'a' -> WAltair | 'c' -> WCapella | 'd' -> WDeneb | 'e' -> WElectra | _ -> WOther
 let parse_step comms s = match split ',' s with
   | [mode; now; fork; att; nx; nbr; fin; fbr; bits; sg; sigslot] ->
     let u = { u_attested = parse_hdr att;
@@ -212,6 +212,13 @@ let handle fields impl : string option * string list =
       else if starts impl "err" && truth = "-" then ["bootstrap-rejected-valid " ^ impl]
       else [] in
     (Some model, fails)
+  | ["ecs"; d] ->
+    (* expectedCurrentSlot with now - genesis = d seconds (any base value: the model only subtracts) *)
+    let d = int_of_string d in
+    let base = 1 lsl 40 in
+    let now_t, gen_t = if d >= 0 then base + d, base else base, base - d in
+    let m = expected_current_slot (n_ now_t) (n_ gen_t) in
+    (Some (Printf.sprintf "ok %d" (int_n m)), [])
   | _ -> (Some "driver: unknown line", [])
 
 let () = Util.run handle
